@@ -101,7 +101,7 @@ for pid in props:
             "replay_cmd_template": f"./check {pid} --replay {{path}}",
             "engine": "miri" if pid == "C14" else "dsim",
             "level_claimed": {"category": "exploration", "text": text, "design_ref": ref},
-            "level_note": note + (" The thorough tier additionally runs a small plain-thread program for this property under Miri's seeded scheduler (weak-memory emulation, data-race detection) and records it under coverage.miri." if pid in ("C02", "C03", "C05", "C16", "C20") else ""),
+            "level_note": note + (" The thorough tier additionally runs a small plain-thread program for this property under Miri's seeded scheduler (weak-memory emulation, data-race detection) and records it under coverage.miri" + (" (for C02 the quick tier does too)." if pid == "C02" else ".") if pid in ("C02", "C03", "C05", "C16", "C20") else ""),
             "technique": tech,
         })
 na = []
@@ -111,7 +111,7 @@ for pid in props:
 
 m = {
   "version": 1,
-  "setup_cmd": "cd /verif/harness && CARGO_NET_OFFLINE=true cargo build --release --offline && cd /verif/miri/c14 && CARGO_NET_OFFLINE=true MIRIFLAGS=-Zmiri-preemption-rate=0.1 cargo +nightly miri run --offline -- 0 0",
+  "setup_cmd": "cd /verif/harness && CARGO_NET_OFFLINE=true cargo build --release --offline && cd /verif/miri/c14 && CARGO_NET_OFFLINE=true MIRIFLAGS=-Zmiri-preemption-rate=0.1 cargo +nightly miri run --offline -- 0 0 && cd /verif/miri/c02 && CARGO_NET_OFFLINE=true MIRIFLAGS=-Zmiri-preemption-rate=0.1 cargo +nightly miri run --offline -- 0 0",
   "hooks": {
     "guard": "--cfg metrics_verif (rustc cfg flag, set through RUSTFLAGS in /verif/harness/.cargo/config.toml)",
     "enable": "RUSTFLAGS='--cfg metrics_verif' — the harness crate /verif/harness path-depends on the six /repo crates and builds them with the flag; no Cargo.toml of /repo changes",
